@@ -54,6 +54,11 @@ type observation struct {
 	AfterStop  int
 	EvEffects  [][][]any
 	EvResults  []string
+	// everything the platform saw, main code and handlers, with the yield count at each effect; the result of
+	// the whole run (the first thing that did not end normally)
+	AllEffects [][]any
+	AllYieldAt []int
+	AllResult  string
 	HandlerSet []string
 }
 
@@ -104,6 +109,14 @@ func execute(src string, inputs []string, events []eventSpec, stopAt int, failFa
 			if herr != nil {
 				break
 			}
+		}
+	}
+	o.AllEffects = plat.Effects
+	o.AllYieldAt = plat.YieldAt
+	o.AllResult = o.Result
+	for _, r := range o.EvResults {
+		if o.AllResult == "ok" && r != "ok" && r != "nohandler" {
+			o.AllResult = r
 		}
 	}
 	o.Yields = plat.y.n
